@@ -22,7 +22,7 @@ ASSUMPTIONS = ["a bounded run whose bound lies before the clock may be refused o
 
 
 def plan(tier):
-    n = 6000 if tier == "quick" else 200000
+    n = 6000 if tier == "quick" else 400000
     return {"cases": n, "shards": 12, "timeout": 900 if tier == "quick" else 5400, "min_nontrivial": 100,
             "min": {"segments_judged": 6000, "pauses_forced": 300, "trace_events_compared": 20000}}
 
